@@ -108,7 +108,10 @@ def run_item(item):
         pm = popgen.random_injective(rng, df["p_id"].tolist(), 50000)
         hm = popgen.random_injective(rng, sorted(df["hh_id"].unique().tolist()), 15000)
         df = popgen.relabel(df, pm, {h: v + 1000 for h, v in hm.items()})
-    TARGETS = env.feasible_targets(functions, list(df.columns), data=df, params=params) if item.get("historical") else None
+    TARGETS = None
+    if item.get("historical"):
+        df = popgen.historical_supplement(df, d)
+        TARGETS = env.feasible_targets(functions, list(df.columns), data=df, params=params, candidates=env.HIST_CANDIDATES)
     base, nodes, roots, dag, fn = env.trace(df, params, functions, TARGETS)
     kinds = env.classify(fn)
     res = dict(date=item["date"], k=item["k"], persons=len(df), households=int(df.hh_id.nunique()),
